@@ -360,6 +360,9 @@ def _mask_rule_writer_structural(repo: Repo, rep: Report, rid: str) -> None:
 
 
 def run(repo: Repo, rep: Report, tier: str) -> None:
+    from .compiled import compiled_fold_rule, shape_rule
+
+    compiled_fold_rule(repo, rep, "C06.R11", tier)
     unit_switch_rule(repo, rep, "C06.R1")
     straddle_rule(repo, rep, "C06.R2")
     flush_rule(repo, rep, "C06.R3")
@@ -377,7 +380,7 @@ def run(repo: Repo, rep: Report, tier: str) -> None:
     struct_rw_fold_rule(repo, rep, "C06.R9", 3 if tier == "thorough" else 2)
     from .c08 import generated_globals_rule
 
-    generated_globals_rule(repo, rep, "C06.R10")
+    shape_rule(repo, rep, tier, generated_globals_rule, "C06.R10")
 
 
 
